@@ -78,6 +78,30 @@ Theorem C03_undelivered_not_executed : forall k tok st c f fs,
 Proof. exact (undelivered_not_executed gen_def). Qed.
 Print Assumptions C03_undelivered_not_executed.
 
+(* Nothing is ever sent in answer to a oneway request — whatever the network does and whatever the
+   method does (the model has ONE oneway kind per call path: the harness maps oneway methods that raise
+   and oneway batches naming an unexposed member onto it): over a whole call, retries included, the
+   list of replies the server ever produced is unchanged ... *)
+Theorem C03_oneway_never_answered : forall k tok n st fs,
+  rk k = None ->
+  s_replies (snd (attempts gen_def k tok n st fs)) = s_replies st.
+Proof. exact (oneway_call_no_reply gen_def). Qed.
+Print Assumptions C03_oneway_never_answered.
+
+(* ... and a oneway attempt consumes no reply: what was waiting in the connection is still there, in order. *)
+Theorem C03_oneway_reads_nothing : forall k tok st c fs,
+  rk k = None -> p_conn st = Some c -> c_broken c = false ->
+  exists c' extra, p_conn (a_st (attempt gen_def k tok st fs)) = Some c' /\ c_queue c' = c_queue c ++ c_delayed c ++ extra.
+Proof. exact (oneway_attempt_reads_nothing gen_def). Qed.
+Print Assumptions C03_oneway_reads_nothing.
+
+(* Tie to the source: BatchProxy.__call__ and BatchProxy._pyroInvoke empty the collected call list after
+   every batch invocation, oneway or not — which is what licenses modelling a batch as a call that
+   carries only its own members (the harness re-uses ONE BatchProxy for all batches of a history). *)
+Theorem C03_source_batch_proxy_cleared : batch_calls_cleared = true.
+Proof. reflexivity. Qed.
+Print Assumptions C03_source_batch_proxy_cleared.
+
 (* The wrap-around 65535 -> 0 raises no false out-of-sync: on a connected, drained proxy at ANY
    sequence number a healthy call of any kind returns its own answer, executed once. *)
 Theorem C03_wraparound_no_false_alarm : forall k tok n st,
